@@ -26,8 +26,8 @@ ASSUMPTIONS = ["int vs float with the same numeric value is UNDETERMINED (JSON c
                "NaN is never generated",
                "XML equality is the notion stated in C12 (text modulo surrounding whitespace); CSV pairs avoid blank-row-only tables"]
 MINIMUMS = {"quick": {"equal_pairs": 700, "unequal_pairs": 4000, "cli_inprocess": 2500, "subprocess_runs": 24, "one_atom_pairs": 500},
-            "thorough": {"equal_pairs": 30000, "unequal_pairs": 120000, "cli_inprocess": 60000, "subprocess_runs": 400,
-                         "one_atom_pairs": 30000}}
+            "thorough": {"equal_pairs": 8000, "unequal_pairs": 50000, "cli_inprocess": 25000, "subprocess_runs": 300,
+                         "one_atom_pairs": 8000}}
 
 SCALARS = [0, 1, 2, -1, 10, 255, 256, 2**31, 2**53, 2**64, 10**30, 1.5, -0.5, 2.25, 1e308, 5e-324, 1e-7, True, False, None,
            "", " ", "a", "b", "ab", "ba", "1", "0", "2", "1.5", "-1", "True", "False", "None", "null", "true", "false", "[]", "{}",
@@ -266,6 +266,22 @@ def check(case, ctx):
                 res = monitors.run_main(["--color", "--no-status", pa, pb] + cli_args(case))
                 if ctx is not None:
                     ctx.count("cli_inprocess")
+                # the edit-list modes compute the exit status on a different path (get_all_edits)
+                h = core.case_hash(case) % 4
+                if h < 2:
+                    mode = ["-e"] if h == 0 else ["-d"]
+                    r2 = monitors.run_main(mode + ["--no-status", pa, pb] + cli_args(case))
+                    if ctx is not None:
+                        ctx.count("cli_inprocess_mode" + mode[0])
+                    if r2.exc is not None:
+                        if not isinstance(r2.exc, ValueError):      # (re-parenting errors of formatter fallbacks are C13's)
+                            diags.append(core.exc_diag("cli-raised", r2.exc, mode=mode[0]))
+                    else:
+                        if r2.rc != want_rc:
+                            diags.append({"kind": "cli-exit-status", "equal": eq, "rc": r2.rc, "mode": mode[0]})
+                        if bool(r2.out.strip()) == eq:
+                            diags.append({"kind": "edit-list-empty-for-unequal" if eq is False else "edit-list-nonempty-for-equal",
+                                          "mode": mode[0], "equal": eq, "stdout": r2.out[:200]})
                 if res.exc is not None:
                     diags.append(core.exc_diag("cli-raised", res.exc))
                 else:
